@@ -114,16 +114,12 @@ void send_cgreen_message(int messaging, int result) {
 
 int receive_cgreen_message(int messaging) {
     ssize_t received;
-    int result;
-    CgreenMessage *message = (CgreenMessage *) malloc(sizeof(CgreenMessage));
-    if (message == NULL) {
-      return -1;
-    }
+    /* no allocation: a record that cannot be received is taken for "no more
+       records", so receiving must not depend on malloc() */
+    CgreenMessage message;
 
-    received = cgreen_pipe_read(queues[messaging].readpipe, message, sizeof(CgreenMessage));
-    result = (received > 0 ? message->result : 0);
-    free(message);
-    return result;
+    received = cgreen_pipe_read(queues[messaging].readpipe, &message, sizeof(CgreenMessage));
+    return (received > 0 ? message.result : 0);
 }
 
 static void clean_up_messaging(void) {
